@@ -353,7 +353,7 @@ func runPredecodeStream(c *Ctx, n int) {
 		}
 		// attacker-shaped roots: duplicated / prefixed / xmlns-shadowed attributes, extra Issuer elements, leading whitespace / comments
 		s := string(raw)
-		shape := r.Intn(11)
+		shape := r.Intn(13)
 		rootTagEnd := strings.Index(s[strings.Index(s, rs.Kind):], " ") + strings.Index(s, rs.Kind)
 		ins := func(at int, text string) { s = s[:at] + text + s[at:] }
 		switch shape {
@@ -390,6 +390,15 @@ func runPredecodeStream(c *Ctx, n int) {
 				sp.IdentityProviderIssuer = ""
 				labels = append(labels, "encrypted-issuer-plaintext")
 			}
+		case 11, 12:
+			// name-space declarations NAMED like the base attributes, placed AFTER the genuine attributes (added by the sender or
+			// by anyone after signing: exclusive canonicalisation drops unused declarations, so a root signature survives)
+			gt := strings.Index(s[rootTagEnd:], ">") + rootTagEnd
+			if s[gt-1] == '/' {
+				gt--
+			}
+			ins(gt, ` xmlns:ID="_evil" xmlns:Destination="https://evil.example.com/acs" xmlns:InResponseTo="_other"`)
+			labels = append(labels, "xmlns-named-attrs-last")
 		case 7, 8:
 			// a second, different root Issuer in front of the genuine one (validation keeps the LAST one)
 			close := strings.Index(s[rootTagEnd:], ">") + rootTagEnd + 1
@@ -419,7 +428,7 @@ func runPredecodeStream(c *Ctx, n int) {
 		for _, l := range labels {
 			c.Count("pre:" + l)
 		}
-		c.Eval(shape < 9, strings.Join(labels, ","))
+		c.Eval(shape < 9 || shape > 10, strings.Join(labels, ","))
 		var obs string
 		var preID, preIRT, preDest, preVer, preIss string
 		var preErr error
@@ -477,6 +486,9 @@ func runPredecodeStream(c *Ctx, n int) {
 				key := "predecode:disagrees"
 				if shape == 3 {
 					key = "predecode:disagrees:dup-prefixed-dup" // known finding F9 region
+				}
+				if shape == 11 || shape == 12 {
+					key = "predecode:disagrees:xmlns-named-attrs-last" // known finding F11 region
 				}
 				c.Violate("spec", key, fmt.Sprintf("pre-decode (ID=%q InResponseTo=%q Destination=%q Version=%q Issuer=%q) vs validated (ID=%q InResponseTo=%q Destination=%q Version=%q Issuer=%q)",
 					preID, preIRT, preDest, preVer, preIss, vID, vIRT, vDest, vVer, vIss), replay)
